@@ -88,7 +88,7 @@ class PulseAtoms:
             -((0 - mu - centre) ** 2) / (2 * sigma**2)
         )
         normalization = 1 / (1.0 - np.exp(-((0 - mu - centre) ** 2) / (2 * sigma**2)))
-        return ampl * baregauss / normalization + offset
+        return ampl * baregauss * normalization + offset
 
 
 def marked_for_deletion(replaced_by: str | None = None) -> Callable:
